@@ -196,3 +196,77 @@ func iterPayload(a, n, c int) func(g *gen) []ir.Stmt {
 		return []ir.Stmt{loop}
 	}
 }
+
+// ---- family "stray": break / continue outside any loop of a CALLED function ----
+//
+// A function boundary is not transparent for break / continue: executed in a
+// function body (directly or inside an if / switch / catch / finally / module
+// block of it) with no enclosing loop inside that function, the signal must
+// not act on a loop of the caller.  The call fails with an error
+// (error-vs-success only); uncaught, the program ends with that error after
+// the trace up to the call; caught by a try of the caller, the caller's loop
+// goes on undisturbed.
+
+// in-function constructs around the stray signal ("" = directly in the body).
+// The body of a try is not among them: a signal that leaves a try body is the
+// known try-body-signal defect and would only add cases to that finding.
+var strayInner = []string{"", "if-then", "if-else", "if-elseif1", "sw-case0", "sw-case1b", "sw-default", "try-catch", "try-finally", "module"}
+
+var strayForms = []string{"direct-uncaught", "nested-uncaught", "direct-caught", "nested-caught"}
+
+// strayPositions is the number of signal positions of the given level
+// (0 = the function's statement list, 1 = the block inside the construct).
+func strayPositions(inner, level int) int {
+	if inner == 0 {
+		if level == 0 {
+			return 2
+		}
+		return 0
+	}
+	if level == 0 {
+		return 4
+	}
+	return 2
+}
+
+func strayPayload(sp Spec) func(g *gen) []ir.Stmt {
+	return func(g *gen) []ir.Stmt {
+		place := func(slots [][]ir.Stmt, level int) []ir.Stmt {
+			var list []ir.Stmt
+			for i, s := range slots {
+				if sp.Level == level && sp.Pos == i {
+					list = append(list, sigStmt(sp.Sig))
+				}
+				list = append(list, s...)
+			}
+			if sp.Level == level && sp.Pos >= len(slots) {
+				list = append(list, sigStmt(sp.Sig))
+			}
+			return list
+		}
+		var body []ir.Stmt
+		if sp.A == 0 {
+			body = place([][]ir.Stmt{{g.p()}}, 0)
+		} else {
+			pre := g.p()
+			hole := place([][]ir.Stmt{{g.p()}}, 1)
+			cons := wrappers[wrapperIndex(strayInner[sp.A])].build(g, hole)
+			body = place([][]ir.Stmt{{pre}, cons, {g.p()}}, 0)
+		}
+		f := fmt.Sprintf("f%d", g.id())
+		out := []ir.Stmt{ir.Func(f, nil, cat(body, []ir.Stmt{ir.Return{Vals: []ir.Expr{ir.I(9)}}}))}
+		callee := f
+		if sp.B&1 != 0 { // one call deeper
+			h := fmt.Sprintf("h%d", g.id())
+			out = append(out, ir.Func(h, nil, []ir.Stmt{g.p(), ir.ExprStmt{X: ir.CallNamed(f)}, g.p(), ir.Return{Vals: []ir.Expr{ir.I(8)}}}))
+			callee = h
+		}
+		call := ir.ExprStmt{X: ir.CallNamed(callee)}
+		if sp.B&2 != 0 { // the caller catches the failure of the call
+			out = append(out, ir.Try{Body: []ir.Stmt{call, g.p()}, Catch: []ir.Stmt{g.p()}})
+		} else {
+			out = append(out, call)
+		}
+		return out
+	}
+}
